@@ -1317,7 +1317,10 @@ func (ex *Exec) doTypeAssert(fr *Frame, st *State, x *ssa.TypeAssert) {
 		ok := ex.fresh(fnShort(fr.fn)+"_ok", "Bool")
 		st.assume(eq(ok, test))
 		zero := ex.w.zeroOf(x.AssertedType)
-		st.vals[x] = SVal{Tup: []SVal{{T: ite(ok, payload, zero)}, {T: ok}}}
+		// a named constant, so that the value can occur inside quantifier patterns (an ite cannot)
+		v := ex.fresh(fnShort(fr.fn)+"_ta", ex.w.sortOf(x.AssertedType))
+		st.assume(eq(v, ite(ok, payload, zero)))
+		st.vals[x] = SVal{Tup: []SVal{{T: v}, {T: ok}}}
 		return
 	}
 	ex.check(fr, st, "assert-type", "", x.Pos(), test)
